@@ -1,13 +1,197 @@
 /-
-Oracle ops for the `fields` family.  Owned by the slice that models it; see AGENT_GUIDE.md.
+Oracle ops for the `fields` family (C15).  Owned by the C15 slice; see AGENT_GUIDE.md.
+
+Graph descriptor (space separated tokens):
+  <nstructs> then per struct: <nfields> then per field:
+     <goNameHex> <declBits> <explicitNameHex | *> <casing> <type>
+  declBits: 1 exported, 2 anonymous, 4 hasTag, 8 tagDash, 16 tagErr, 32 embedOpt, 64 omitzero,
+            128 omitempty, 256 string, 512 format, 1024 methods, 2048 isZeroer
+  type: S<id> struct | P<id> pointer to struct | V jsontext.Value | M map[string]T | K map with bad key | O other
+
+Ops
+  fields flatten <root> <graph>                 → `OK <k> {<id>:<i.j.k>:<nameHex>:<optBits>} FB=<i.j|-> FMT=<0|1>` | `E <class>`
+  fields lookups <root> <flagBits> <k> <k nameHex> <graph>  → k answers `F<id>` | `A` | `U`   (flagBits: 1 MatchCaseInsensitiveNames,
+                                                   2 MatchCaseSensitiveDelimiter, 4 ReportErrorsWithLegacySemantics)
+  fields full <root> <k> <k nameHex> <graph>    → `<flatten answer> ;<lookups fl=0> ;<fl=1> ;<2> ;<3> ;<4> ;<5> ;<7>`
+  fields fold <hex>                             → hex of foldName
+  fields match <fieldNameHex> <casing> <nameHex> <flagBits> → 0|1
+  fields omit <optBits> <flagBits> <valBits>    → 0|1   (flagBits: 1 OmitZeroStructFields, 2 OmitEmptyWithLegacySemantics;
+                                                   valBits: 1 zero, 2 legacyEmpty, 4 jsonEmpty)
+  optBits: hasName + 2*casing + 8*embed + 16*omitzero + 32*omitempty + 64*string + 128*format
 -/
 import JsonV.Oracle.Util
+import JsonV.Model.Fields
 
 namespace JsonV.Oracle.Fields
-open JsonV JsonV.Oracle
+open JsonV JsonV.Model JsonV.Model.Fields JsonV.Oracle
+
+/-- `foldRune` on the runes the harness uses: ASCII, Latin-1, and the few runes whose SimpleFold orbit
+crosses blocks (µ, ſ, K, Å, ẞ, Ÿ); identity elsewhere.  The harness checks this table against
+`unicode.SimpleFold` for every rune of its alphabet before relying on it. -/
+def foldRuneTbl (r : Nat) : Nat :=
+  if 0x61 ≤ r ∧ r ≤ 0x7A then r - 32
+  else if r = 0x39C ∨ r = 0x3BC then 0xB5
+  else if 0xE0 ≤ r ∧ r ≤ 0xFE ∧ r ≠ 0xF7 then r - 32
+  else if r = 0x1E9E then 0xDF
+  else if r = 0x178 then 0xFF
+  else if r = 0x17F then 0x53
+  else if r = 0x212A then 0x4B
+  else if r = 0x212B then 0xC5
+  else r
+
+def bit (n k : Nat) : Bool := (n / k) % 2 == 1
+
+def parseTy (s : String) : Option TypeRef :=
+  match s.toList with
+  | 'S' :: r => (String.ofList r).toNat?.map .struct
+  | 'P' :: r => (String.ofList r).toNat?.map .ptr
+  | ['V'] => some .fbValue
+  | ['M'] => some .fbMap
+  | ['K'] => some .fbMapBadKey
+  | ['O'] => some .other
+  | _ => none
+
+def parseField : List String → Option (FieldDecl × List String)
+  | gn :: bits :: nm :: cs :: ty :: rest =>
+    match bytesOfHex gn, bits.toNat?, (if nm == "*" then some none else (bytesOfHex nm).map some), cs.toNat?, parseTy ty with
+    | some gn, some b, some nm, some cs, some ty =>
+      some ({ goName := gn, exported := bit b 1, anonymous := bit b 2, hasTag := bit b 4, tagDash := bit b 8,
+              tagErr := bit b 16, name := nm, casing := cs, embedOpt := bit b 32, omitzero := bit b 64,
+              omitempty := bit b 128, string := bit b 256, format := bit b 512, ty := ty,
+              methods := bit b 1024, isZeroer := bit b 2048 }, rest)
+    | _, _, _, _, _ => none
+  | _ => none
+
+def parseFields : Nat → List String → Option (List FieldDecl × List String)
+  | 0, r => some ([], r)
+  | n + 1, r =>
+    match parseField r with
+    | some (d, r) => match parseFields n r with
+      | some (ds, r) => some (d :: ds, r)
+      | none => none
+    | none => none
+
+def parseStructs : Nat → List String → Option (Graph × List String)
+  | 0, r => some ([], r)
+  | n + 1, r =>
+    match r with
+    | k :: r =>
+      match k.toNat? with
+      | some k => match parseFields k r with
+        | some (fs, r) => match parseStructs n r with
+          | some (g, r) => some (fs :: g, r)
+          | none => none
+        | none => none
+      | none => none
+    | [] => none
+
+def tyInRange (n : Nat) (d : FieldDecl) : Bool :=
+  match d.ty.structId? with
+  | some t => t < n
+  | none => true
+
+def parseGraph (toks : List String) : Option Graph :=
+  match toks with
+  | n :: r =>
+    match n.toNat? with
+    | some n => match parseStructs n r with
+      | some (g, []) => if g.all (fun fs => fs.all (tyInRange g.length)) then some g else none
+      | _ => none
+    | none => none
+  | [] => none
+
+def optBits (o : FieldOpts) : Nat :=
+  o.hasName.toNat + 2 * o.casing + 8 * o.embed.toNat + 16 * o.omitzero.toNat + 32 * o.omitempty.toNat +
+  64 * o.string.toNat + 128 * o.format.toNat
+
+def showIndex (ix : List Nat) : String :=
+  if ix.isEmpty then "-" else ".".intercalate (ix.map toString)
+
+def showField (f : RField) : String :=
+  s!"{f.id}:{showIndex f.index}:{hexOfBytes f.name}:{optBits f.opts}"
+
+def showErr : Err → String
+  | .tag => "tag" | .embeddedNeedsName => "embedded-needs-name" | .embedOtherOptions => "embed-other-options"
+  | .embedMethods => "embed-methods" | .embedUnexported => "embed-unexported" | .embedBadMapKey => "embed-bad-map-key"
+  | .embedBadType => "embed-bad-type" | .multipleFallbacks => "multiple-fallbacks" | .unexportedField => "unexported-field"
+  | .unexportedMethods => "unexported-methods" | .nameConflict => "name-conflict" | .noExportedFields => "no-exported-fields"
+
+def showLookup : Lookup → String
+  | .found f => s!"F{f.id}"
+  | .ambiguous => "A"
+  | .unknown => "U"
+
+def matchFlags (b : Nat) : Fold.MatchFlags :=
+  { caseInsensitive := bit b 1, caseSensitiveDelim := bit b 2, legacyErrors := bit b 4 }
+
+def optsOfBits (b : Nat) : FieldOpts :=
+  { hasName := bit b 1, casing := (b / 2) % 4, embed := bit b 8, omitzero := bit b 16, omitempty := bit b 32,
+    string := bit b 64, format := bit b 128 }
+
+/-- Did the level-by-level search stop because its fuel ran out (never, by `bfs_fuel_suffices`)? -/
+def searchExhausted (g : Graph) (root : StructId) : Bool := !(search g root).queue.isEmpty
 
 def handle (op : String) (args : List String) : String :=
   match op, args with
+  | "flatten", root :: gtoks =>
+    match root.toNat?, parseGraph gtoks with
+    | some root, some g =>
+      if root ≥ g.length then badArgs else
+      if searchExhausted g root then "ERR fuel" else
+      let r := flatten g root
+      match r.err with
+      | some e => s!"E {showErr e}"
+      | none =>
+        let fs := " ".intercalate (r.flattened.map showField)
+        let fb := match r.fallback with
+          | some f => showIndex f.index
+          | none => "-"
+        s!"OK {r.flattened.length} {fs} FB={fb} FMT={boolStr r.errFormat}"
+    | _, _ => badArgs
+  | "lookups", root :: fl :: k :: rest =>
+    match root.toNat?, fl.toNat?, k.toNat? with
+    | some root, some fl, some k =>
+      match (rest.take k).mapM bytesOfHex, parseGraph (rest.drop k) with
+      | some names, some g =>
+        if root ≥ g.length ∨ names.length ≠ k then badArgs else
+        let r := flatten g root
+        " ".intercalate (names.map (fun n => showLookup (lookup foldRuneTbl r.flattened n (matchFlags fl))))
+      | _, _ => badArgs
+    | _, _, _ => badArgs
+  | "full", root :: k :: rest =>
+    -- flatten + lookups under the flag sets 0 1 2 3 4 5 7, in one pass: `<flatten> ;<answers fl=0> ;<answers fl=1> …`
+    match root.toNat?, k.toNat? with
+    | some root, some k =>
+      match (rest.take k).mapM bytesOfHex, parseGraph (rest.drop k) with
+      | some names, some g =>
+        if root ≥ g.length ∨ names.length ≠ k then badArgs else
+        if searchExhausted g root then "ERR fuel" else
+        let r := flatten g root
+        let head := match r.err with
+          | some e => s!"E {showErr e}"
+          | none =>
+            let fs := " ".intercalate (r.flattened.map showField)
+            let fb := match r.fallback with
+              | some f => showIndex f.index
+              | none => "-"
+            s!"OK {r.flattened.length} {fs} FB={fb} FMT={boolStr r.errFormat}"
+        let looks := [0, 1, 2, 3, 4, 5, 7].map (fun fl =>
+          " ".intercalate (names.map (fun n => showLookup (lookup foldRuneTbl r.flattened n (matchFlags fl)))))
+        " ;".intercalate (head :: looks)
+      | _, _ => badArgs
+    | _, _ => badArgs
+  | "fold", [h] =>
+    match bytesOfHex h with
+    | some b => hexOfBytes (Fold.foldName foldRuneTbl b)
+    | none => badArgs
+  | "match", [fn, cs, nm, fl] =>
+    match bytesOfHex fn, cs.toNat?, bytesOfHex nm, fl.toNat? with
+    | some fn, some cs, some nm, some fl => boolStr (Fold.matchFoldedName foldRuneTbl fn cs nm (matchFlags fl))
+    | _, _, _, _ => badArgs
+  | "omit", [ob, fl, vb] =>
+    match ob.toNat?, fl.toNat?, vb.toNat? with
+    | some ob, some fl, some vb => boolStr (omitted (optsOfBits ob) (bit fl 1) (bit fl 2) (bit vb 1) (bit vb 2) (bit vb 4))
+    | _, _, _ => badArgs
   | _, _ => "ERR unimplemented"
 
 end JsonV.Oracle.Fields
